@@ -125,7 +125,7 @@ R = [
     (r"^render::text_renderer::WrappedBlock::<T>::flush_word_hard_wrap:Sub\(lineleft, w\)$", "bpos == 0 means nothing was split off, so the loop condition w − wpos > lineleft was false with wpos == 0"),
     (r"^render::text_renderer::WrappedBlock::<T>::flush_word_hard_wrap:Sub\(lineleft, <impl usize>::saturating_sub\(w, wpos\)\)$", "the loop exited because w − wpos <= lineleft"),
     (r"^render::text_renderer::BorderHoriz::<T>::new(_type)?:from_elem\(", "border widths are table widths: Σ allocated column widths (A1) in the side-by-side layout; the renderer width only in the stacked layout, which draws borders only when width < min_size (memory-bounded) because raw mode disables borders"),
-    (r"^render::text_renderer::BorderHoriz::<T>::join_(above|below):index(_mut)?\(&(mut )?self.segments, x\)$", "stretch_to(x + 1) ran first: segments.len() > x"),
+    (r"^render::text_renderer::BorderHoriz::<T>::join_(above|below):index(_mut)?\(&(mut )?self.segments, x\)$", "[any-guard] stretch_to(x + 1) ran first: segments.len() > x"),
     (r"^<render::text_renderer::SubRenderer<D> as render::Renderer>::pop_preformat:(diverge\(panic\)|Sub\(self.pre_depth, 1_usize\))$", "push_preformat/pop_preformat are paired by PushedStyleInfo::apply/unwind (rules C09-C/D)"),
     (r"append_columns_with_borders::\{closure:into_lines[^}]*\}:Add\(tot_width, width\)$", "Σ cell widths <= the table width the shrink loop enforced (rule C06-C)"),
     (r"append_columns_with_borders:Sub\(<T, A>::len\(&line_sets\), 1_usize\)$", "the sole caller (render_table_row's reducer, checked) calls only when some child is non-empty, so there is at least one column"),
